@@ -53,14 +53,23 @@ type elasticBulkDec struct {
 
 func (e *elasticBulkDec) Decode() error {
 	scanner := bufio.NewScanner(e.ctx.bodyReader)
+	scanner.Buffer(make([]byte, 0, 64*1024), maxNDJSONLine)
 	for scanner.Scan() {
 		err := e.decodeLine(scanner.Bytes())
 		if err != nil {
 			return customErrors.NewUnmarshalError(err)
 		}
 	}
+	// a line longer than the scanner's limit (or a failing body stream) ends Scan: report it
+	// instead of acknowledging a request whose remaining lines were never read
+	if err := scanner.Err(); err != nil {
+		return customErrors.NewUnmarshalError(err)
+	}
 	return nil
 }
+
+// maxNDJSONLine is the longest line the newline-delimited decoders accept.
+const maxNDJSONLine = 10 * 1024 * 1024
 
 func (e *elasticBulkDec) SetOnEntries(h onEntriesHandler) {
 	e.onEntries = h
